@@ -694,8 +694,8 @@ theorem ctor_ok {a c : CtorArgs} (h : densityCtor a = ok c) :
     gpFromString a.gpType = ok c.gpType ∧
     ctorNN a.nnDistances = ok c.nnDistances ∧
     validateFloat a.mu true = ok c.mu ∧
-    validatePositiveFloat a.ls true = ok c.ls ∧
-    validatePositiveFloat a.lsFactor false = ok c.lsFactor ∧
+    validatePositiveFloat a.ls true true = ok c.ls ∧
+    validatePositiveFloat a.lsFactor false true = ok c.lsFactor ∧
     validateArray a.lp true none = ok c.lp ∧
     validateArray a.l true none = ok c.l ∧
     validateFloatOrIterable a.d true true = ok c.d ∧
@@ -758,16 +758,16 @@ theorem ctorNN_post {v r : PyVal} (h : ctorNN v = ok r) :
     · cases h
   · cases h
 
-/-- What an accepted constructor call guarantees about the stored attributes: jitter, ls_factor,
-    init_learn_rate (and ls when given) are FINITE positive floats; rank and mu carry no NaN; the flags
+/-- What an accepted constructor call guarantees about the stored attributes: jitter and
+    init_learn_rate are FINITE positive floats, ls_factor (and ls when given) positive floats (possibly `+inf`); rank and mu carry no NaN; the flags
     are genuine bools; optimizer and d_method are known option strings; gp_type is None or a
     GaussianProcessType; n_landmarks / n_iter are non-negative ints; stored nn_distances are all finite and
     positive; `d` has no negative entry. -/
 theorem ctor_post {a c : CtorArgs} (h : densityCtor a = ok c) :
     (∃ x, c.jitter = .float x ∧ x.finPos = true) ∧
-    (∃ x, c.lsFactor = .float x ∧ x.finPos = true) ∧
+    (∃ x, c.lsFactor = .float x ∧ x.pos = true) ∧
     (∃ x, c.initLearnRate = .float x ∧ x.finPos = true) ∧
-    (c.ls = .none ∨ ∃ x, c.ls = .float x ∧ x.finPos = true) ∧
+    (c.ls = .none ∨ ∃ x, c.ls = .float x ∧ x.pos = true) ∧
     (c.rank = .none ∨ cleanNumber c.rank) ∧ (c.mu = .none ∨ cleanNumber c.mu) ∧
     (∃ b, c.predictorWithUncertainty = .bool b) ∧ (∃ b, c.jit = .bool b) ∧
     (c.checkRank = .none ∨ ∃ b, c.checkRank = .bool b) ∧
@@ -780,15 +780,15 @@ theorem ctor_post {a c : CtorArgs} (h : densityCtor a = ok c) :
   · rcases positive_float_post h3 with ⟨_, _, ho⟩ | ⟨x, hr, _, _, hf⟩
     · cases ho
     · exact ⟨x, hr, hf rfl⟩
-  · rcases positive_float_post h9 with ⟨_, _, ho⟩ | ⟨x, hr, _, _, hf⟩
+  · rcases positive_float_post h9 with ⟨_, _, ho⟩ | ⟨x, hr, hp, _, _⟩
     · cases ho
-    · exact ⟨x, hr, hf rfl⟩
+    · exact ⟨x, hr, hp⟩
   · rcases positive_float_post h16 with ⟨_, _, ho⟩ | ⟨x, hr, _, _, hf⟩
     · cases ho
     · exact ⟨x, hr, hf rfl⟩
-  · rcases positive_float_post h8 with ⟨hr, _, _⟩ | ⟨x, hr, _, _, hf⟩
+  · rcases positive_float_post h8 with ⟨hr, _, _⟩ | ⟨x, hr, hp, _, _⟩
     · exact Or.inl hr
-    · exact Or.inr ⟨x, hr, hf rfl⟩
+    · exact Or.inr ⟨x, hr, hp⟩
   · rcases float_or_int_post h2 with ⟨hr, _, _⟩ | hx
     · exact Or.inl hr
     · exact Or.inr hx
@@ -825,9 +825,23 @@ theorem ctor_post {a c : CtorArgs} (h : densityCtor a = ok c) :
     · exact Or.inl hr
     · exact Or.inr hx
 
+/-- Every float that is not positive (NaN, −inf, zero, negative) is refused whatever `allow_inf` says; `+inf`
+    is accepted exactly when `allow_inf=True` (the constant-kernel limit of a length scale). -/
+theorem positive_float_refuses_nonpos (x : XF) (o ai : Bool) (h : x.pos = false) :
+    validatePositiveFloat (.float x) o ai = valueError := by
+  cases x with
+  | fin q =>
+    have : (XF.fin q).le0 = true := by
+      simp only [XF.pos, decide_eq_false_iff_not, not_lt] at h
+      simp [XF.le0, h]
+    exact (positive_float_refusals o ai).2.2.1 _ this
+  | pinf => simp [XF.pos] at h
+  | ninf => exact (positive_float_refusals o ai).2.2.1 _ (by simp [XF.le0])
+  | nan => exact (positive_float_refusals o ai).2.1 _ (by simp [XF.isNan])
+
 /-- Construction-time refusals: an unknown optimizer or d_method string, a non-string option, a flag that
-    is not a bool, a jitter / ls / ls_factor / init_learn_rate that is not a finite positive number (NaN, ±inf,
-    zero, negative), a NaN rank or mu, a gp_type that is no str / member / None, or nn_distances without a single valid entry — none of them constructs. -/
+    is not a bool, a jitter / init_learn_rate that is not a finite positive number (NaN, ±inf, zero, negative), a
+    ls / ls_factor that is not positive (NaN, −inf, zero, negative; `+inf` is the constant-kernel limit and legal), a NaN rank or mu, a gp_type that is no str / member / None, or nn_distances without a single valid entry — none of them constructs. -/
 theorem ctor_refuses (a : CtorArgs) :
     ((∀ s n, a.optimizer = .str s n → s ∉ optimizerChoices) → (densityCtor a).isOk = false) ∧
     ((∀ s n, a.dMethod = .str s n → s ∉ dMethodChoices) → (densityCtor a).isOk = false) ∧
@@ -835,8 +849,8 @@ theorem ctor_refuses (a : CtorArgs) :
     ((∀ b, a.predictorWithUncertainty ≠ .bool b) → (densityCtor a).isOk = false) ∧
     ((∀ b, a.checkRank ≠ .bool b) → a.checkRank ≠ .none → (densityCtor a).isOk = false) ∧
     ((∃ x, a.jitter = .float x ∧ x.finPos = false) → (densityCtor a).isOk = false) ∧
-    ((∃ x, a.ls = .float x ∧ x.finPos = false) → (densityCtor a).isOk = false) ∧
-    ((∃ x, a.lsFactor = .float x ∧ x.finPos = false) → (densityCtor a).isOk = false) ∧
+    ((∃ x, a.ls = .float x ∧ x.pos = false) → (densityCtor a).isOk = false) ∧
+    ((∃ x, a.lsFactor = .float x ∧ x.pos = false) → (densityCtor a).isOk = false) ∧
     ((∃ x, a.initLearnRate = .float x ∧ x.finPos = false) → (densityCtor a).isOk = false) ∧
     ((∀ s n, a.gpType ≠ .str s n) → (∀ t, a.gpType ≠ .enum t) → a.gpType ≠ .none → (densityCtor a).isOk = false) ∧
     (a.rank = .float .nan → (densityCtor a).isOk = false) ∧
@@ -892,15 +906,15 @@ theorem ctor_refuses (a : CtorArgs) :
     rintro ⟨r, hr⟩
     rw [hxa, positive_float_refuses_nonfinite x false hx] at hr; cases hr
   · rintro ⟨x, hxa, hx⟩
-    refine key (P := ∃ r, validatePositiveFloat a.ls true false = ok r)
+    refine key (P := ∃ r, validatePositiveFloat a.ls true true = ok r)
       (fun c hc => ⟨_, (ctor_ok hc).2.2.2.2.2.2.2.1⟩) ?_
     rintro ⟨r, hr⟩
-    rw [hxa, positive_float_refuses_nonfinite x true hx] at hr; cases hr
+    rw [hxa, positive_float_refuses_nonpos x true true hx] at hr; cases hr
   · rintro ⟨x, hxa, hx⟩
-    refine key (P := ∃ r, validatePositiveFloat a.lsFactor false false = ok r)
+    refine key (P := ∃ r, validatePositiveFloat a.lsFactor false true = ok r)
       (fun c hc => ⟨_, (ctor_ok hc).2.2.2.2.2.2.2.2.1⟩) ?_
     rintro ⟨r, hr⟩
-    rw [hxa, positive_float_refuses_nonfinite x false hx] at hr; cases hr
+    rw [hxa, positive_float_refuses_nonpos x false true hx] at hr; cases hr
   · rintro ⟨x, hxa, hx⟩
     refine key (P := ∃ r, validatePositiveFloat a.initLearnRate false false = ok r)
       (fun c hc => ⟨_, (ctor_ok hc).2.2.2.2.2.2.2.2.2.2.2.2.2.2.2.1⟩) ?_
